@@ -899,9 +899,11 @@ class MultiVector:
 
     # {{{ comparisons
 
-    @memoize_method
     def __hash__(self):
-        result = hash(self.space)
+        # Neither memoized (the memo would travel in pickles to processes with
+        # another hash seed) nor based on the identity of the space object
+        # (an unpickled copy has its own): __eq__ compares the data.
+        result = hash(type(self).__name__)
         for bits, coeff in self.data.items():
             result ^= hash(bits) ^ hash(coeff)
 
